@@ -104,6 +104,16 @@ class PathInterp(sym.Interp):
                 return self.opt_of_place(pl)
         return sym.Interp.ev_Field(self, n)
 
+    def ev_Ref(self, n):
+        # `if let Some(x) = &mut self.field` (binding by reference through the default binding mode): like `.as_mut()`
+        if n.get("mut") and isinstance(n.get("e"), dict) and peel(n["e"]).get("k") == "Field" and (peel(n["e"]).get("ty") or "").startswith("std::option::Option<"):
+            pl = place(peel(n["e"]))
+            if pl is not None:
+                v = self.opt_of_place(pl)
+                v._mut_place = pl
+                return v
+        return sym.Interp.ev_Ref(self, n)
+
     def ev_Local(self, n):
         if n["id"] in self.alias:
             return self.opt_of_place(self.alias[n["id"]]).payload
@@ -187,6 +197,18 @@ class PathInterp(sym.Interp):
             v = self.ev(n["recv"])
             if isinstance(v, ResVal):
                 return v
+        if name == "map" and "result::Result" in (n.get("def") or "") and len(n["args"]) == 1:
+            v = self.ev(n["recv"])
+            if isinstance(v, ResVal):
+                a0 = n["args"][0]
+                ap = peel(a0)
+                fv = sym.FnVal(ap) if (ap.get("k") == "Path" and ap.get("dk", "").startswith(("Fn", "AssocFn", "Ctor"))) else self.ev(a0)
+                if not isinstance(fv, (sym.ClosureVal, sym.FnVal)):
+                    raise sym.Unsupported(n, "Result::map with a non-function")
+                # the mapped value exists on the Ok side only: decide, then map
+                if self.decide(v.okc):
+                    return sym.Variant("Ok", [self.apply_closure(fv, [v.ok], n)])
+                return sym.Variant("Err", [v.err])
         if name in ("unwrap", "expect"):
             v = self.ev(n["recv"])
             if isinstance(v, (OptVal, ResVal)):
@@ -218,6 +240,16 @@ class PathInterp(sym.Interp):
             if self.decide(val.okc):
                 return d == "Ok" and self.bind_refutable(sub, val.ok, node)
             return d == "Err" and self.bind_refutable(sub, val.err, node)
+        if k == "PStruct" and isinstance(val, sp.Symbol) and d not in ("Some", "None", "Ok", "Err"):
+            # `let Self { init_dt: Some(dt), … } = self else { … }`: field by field, Option-typed fields as (is-some, payload)
+            for f in pat["fields"]:
+                pl = "%s.%s" % (val.name, f["name"])
+                sub = f["pat"]
+                sd = (sub.get("def") or "").split("::")[-1]
+                fv = self.opt_of_place(pl) if sd in ("Some", "None") else self.fields.setdefault(pl, self.sym(pl))
+                if not self.bind_refutable(sub, fv, node):
+                    return False
+            return True
         if k == "PTuple" and isinstance(val, tuple) and len(val) == len(pat["ps"]):
             # left to right, stopping at the first mismatch (as the compiled test does)
             for q, v in zip(pat["ps"], val):
